@@ -226,7 +226,8 @@ class RunCtx(object):
         os.makedirs(evdir, exist_ok=True)
         with open(os.path.join(evdir, self.prop + ".json"), "w") as f:
             json.dump(ev, f, indent=1, sort_keys=True, default=str)
-        shutil.rmtree(self.dir, ignore_errors=True)
+        if not os.environ.get("VERIF_KEEP_RUN"):               # (debugging aid: keep the scratch data of this run)
+            shutil.rmtree(self.dir, ignore_errors=True)
         try:
             os.rmdir(os.path.join(VERIF, ".run"))
         except OSError:
